@@ -74,6 +74,14 @@ func (s inputSpec) build() []byte {
 			}
 			i += n
 		}
+	case "hcvisit":
+		// incompressible bytes with one 32-byte repeat: the 32 bytes at P1 are those at P2 (P2 < P1, less than
+		// 64 KiB apart).  P1 and P2 are consecutive positions of the HC search's skip schedule
+		// (si += 1 + (si-anchor)>>7), so the compressor finds the match after a literal run of exactly P1 bytes.
+		r.Read(b)
+		if s.P1+32 <= len(b) && s.P2 >= 0 && s.P2 < s.P1 {
+			copy(b[s.P1:s.P1+32], b[s.P2:s.P2+32])
+		}
 	case "plant":
 		// compressible background (so that the compressors' adaptive skipping stays small) with
 		// unique random segments of P2 bytes repeated exactly P1 bytes later; Seed picks the
